@@ -1,6 +1,8 @@
 package zog
 
 import (
+	"fmt"
+
 	"github.com/Oudwins/zog/conf"
 	p "github.com/Oudwins/zog/internals"
 	"github.com/Oudwins/zog/zconst"
@@ -107,6 +109,9 @@ func Int32(opts ...SchemaOption) *NumberSchema[int32] {
 				return nil, err
 			}
 			if n, ok := x.(int); ok {
+				if n < -2147483648 || n > 2147483647 {
+					return nil, fmt.Errorf("failed to coerce to int32: %d is out of range", n)
+				}
 				return int32(n), nil
 			}
 			return x, nil
